@@ -64,7 +64,7 @@ impl Property for C03 {
         if tier == "thorough" { 1_500_000 } else { 40_000 }
     }
     fn rule(&self) -> String {
-        "thorough tier additionally enumerates, for every corpus script up to 1536 bytes, truncation at every byte offset and an invalid UTF-8 byte at every byte offset; sampled cases: case = (printing program from W1 | W2) x (delivery mode: chunked reads at PRNG boundaries incl. inside multi-byte characters, wrong size hint, EINTR bursts | read error at the n-th read | open error (7 errnos) | getcwd error | stored byte replaced by an invalid UTF-8 byte at a PRNG offset | inter-token space replaced by a character no token starts with (W2 only) | truncated delivery at a PRNG offset); oracle: invisible deliveries => reference transcript; read/open/cwd/encoding faults => empty stdout, no fd-1 write attempted, exit 103, exactly one stderr line starting with argv[1]; lexical corruption => same plus located form with line <= lines+1; truncation => exit in {0,103}, stderr empty iff exit 0, located line bound; on every run all script reads and the close precede the first stdout write; non-trivial = fault/delivery event fired; distinct = distinct (program, world, plan)".to_string()
+        "thorough tier additionally enumerates, for every corpus script up to 1536 bytes, truncation at every byte offset and an invalid UTF-8 byte at every byte offset; sampled cases: case = (printing program from W1 | W2) x (delivery mode: chunked reads at PRNG boundaries incl. inside multi-byte characters, wrong size hint, EINTR bursts | read error at the n-th read | open error (7 injected errnos; or refused by the kernel itself: trailing slash, directory, symlink loop, missing file, path longer than PATH_MAX) | getcwd error | stored byte replaced by an invalid UTF-8 byte at a PRNG offset | inter-token space replaced by a character no token starts with (W2 only) | truncated delivery at a PRNG offset); oracle: invisible deliveries => reference transcript; read/open/cwd/encoding faults => empty stdout, no fd-1 write attempted, exit 103, exactly one stderr line starting with argv[1]; lexical corruption => same plus located form with line <= lines+1; truncation => exit in {0,103}, stderr empty iff exit 0, located line bound; on every run all script reads and the close precede the first stdout write; non-trivial = fault/delivery event fired; distinct = distinct (program, world, plan)".to_string()
     }
     fn assumptions(&self) -> Vec<String> {
         vec![
@@ -134,7 +134,14 @@ impl Property for C03 {
                 }
                 plan.items.push(faults::read_fault(rng, nreads));
             }
-            6 => plan.items.push(faults::open_fault(rng)),
+            6 => {
+                if rng.chance(1, 2) {
+                    plan.items.push(faults::open_fault(rng));
+                } else {
+                    // the kernel itself refuses: trailing slash, directory, symlink loop, missing, too long
+                    return Case { label: p.label, program: p.program, aux: p.aux, world: World { spelling: 7 + rng.below(5) as u8, ..World::reference() }, plan };
+                }
+            }
             7 => plan.items.push(faults::cwd_fault(rng)),
             8 | 15 => {
                 let bad = [0xffu8, 0xc0, 0xf8, 0xfe][rng.usize_below(4)];
@@ -192,7 +199,11 @@ impl Property for C03 {
 
         // which class of thing actually happened
         let rd_err = r.events.iter().any(|e| e.kind == 'R' && e.ret < 0 && e.errno != 4);
-        let op_err = r.events.iter().any(|e| e.kind == 'O' && e.ret < 0 && e.errno != 4);
+        let real_refusal = case.world.spelling >= 7;
+        let op_err = real_refusal || r.events.iter().any(|e| e.kind == 'O' && e.ret < 0 && e.errno != 4);
+        if real_refusal {
+            out.probes.push(format!("real-refusal:{}", case.world.spelling));
+        }
         let cw_err = r.events.iter().any(|e| e.kind == 'G' && e.ret < 0 && e.errno != 34);
         let read_any = r.events.iter().any(|e| e.kind == 'R');
         let flip = case.plan.items.iter().find_map(|i| if let Item::Flip { off, bytes } = i { Some((*off, bytes.clone())) } else { None });
